@@ -54,7 +54,7 @@ def execute(case):
             ncalls[c] += 1
             n = ncalls[c]
             log({"ev": "call", "k": k, "c": c})
-            gate = {"ev": anyio.Event(), "ok": True}
+            gate = {"ev": anyio.Event(), "ok": True, "k": k}
             parked.setdefault(c, collections.deque()).append(gate)
             await gate["ev"].wait()
             if not gate["ok"]:
@@ -87,7 +87,10 @@ def execute(case):
                     await tg.start(lambda *, task_status: listen(1, task_status=task_status))
                     await tg.start(lambda *, task_status: listen(2, task_status=task_status))
 
+                    scopes = {}
+
                     async def lookup(k):
+                      with anyio.CancelScope() as scopes[k]:
                         CURK.set(k)
                         c = prog["ctx"][k - 1]
                         log({"ev": "begin", "k": k, "c": c})
@@ -106,6 +109,10 @@ def execute(case):
                             else:
                                 v = await ctxs[c].get_resource(TYP[prog["typ"][k - 1]], "default", optional=True)
                             log({"ev": "end", "k": k, "c": c, "r": "obj", "v": getattr(v, "label", ["?", 0, 0])})
+                        except anyio.get_cancelled_exc_class():
+                            # the generating (or waiting) lookup was cancelled on purpose: for the others the same as a factory that raised
+                            log({"ev": "end", "k": k, "c": c, "r": "error", "v": ["error", 0, 0]})
+                            raise
                         except FactoryBoom:
                             log({"ev": "end", "k": k, "c": c, "r": "error", "v": ["error", 0, 0]})
                         except Exception as e:  # noqa: BLE001
@@ -136,7 +143,10 @@ def execute(case):
                             gate = parked[c].popleft()
                             gate["ok"] = a["ok"]
                             log({"ev": "release", "c": c, "ok": a["ok"]})
-                            gate["ev"].set()
+                            if a.get("cancel"):
+                                scopes[gate["k"]].cancel()        # the task whose lookup runs the factory is cancelled while the factory awaits
+                            else:
+                                gate["ev"].set()
                         await vclock.quiescent()
                         log({"ev": "q", "blocked": sorted(begun - ended)})
                     # let everything finish: release whatever is still parked
